@@ -226,7 +226,7 @@ def drive(v, binary, behs, users, creds, seed, what, timeout=900, extra_params=N
 def graph_tlc(cfg, workers, timeout):
     c = dict(cfg)
     c["EMIT"] = "ACTION_CONSTRAINT Emit"
-    return vlib.tlc(SPEC, "MCHandshake", "MCHandshake.cfg", c, workers=workers, timeout=timeout, edges=True)
+    return vlib.tlc(SPEC, "MCHandshake", "MCHandshake.cfg", c, workers=workers, timeout=timeout, edges=True, heap="3g")
 
 
 def graph_replay(v, binary, g, users, creds, seed, name, max_paths=None, walks=0):
@@ -288,16 +288,16 @@ def run(tier, seed, replay):
     nrep = nsteps = uncovered = distinct = 0
     states = transitions = 0
 
-    with ThreadPoolExecutor(max_workers=10) as ex:
+    with ThreadPoolExecutor(max_workers=4) as ex:      # at most four JVMs at a time
         # (1) design, exhaustive, no graph: short fields with every segmentation ...
         dcfg, _, _ = small_config(k, seed, 2 if big else 1)
         fdesign = ex.submit(vlib.tlc, SPEC, "MCHandshake", "MCHandshake.cfg", dcfg, 16 if big else 8, 3000, False,
-                            None, None, None, (), "8g", True)
+                            None, None, None, (), "6g", True)
         # ... and fields at their maximum lengths with boundary segmentations
         flong = None
         if big:
             lcfg, _, _ = long_config(k, seed, 2)
-            flong = ex.submit(vlib.tlc, SPEC, "MCHandshake", "MCHandshake.cfg", lcfg, 16, 3000, False)
+            flong = ex.submit(vlib.tlc, SPEC, "MCHandshake", "MCHandshake.cfg", lcfg, 16, 3000, False, None, None, None, (), "4g")
 
         # (2) state graphs whose every edge is replayed on the real code: short fields (every cut), maximum-length
         #     fields (boundary cuts) and, in the thorough tier, two more byte concretisations of the short-field graph
